@@ -34,6 +34,9 @@ type Op struct {
 	// Doc picks the target document (index into the collection's documents sorted by docID,
 	// deleted ones included).
 	Doc int `json:"doc,omitempty"`
+	// More (updateID/deleteID on the GraphQL route): further picks; the mutation then names a LIST of
+	// document ids (docID: [a, b, ...]) - several documents by id in one call.
+	More []int `json:"more,omitempty"`
 	// Docs are the documents to create (createOne/createMany/upsert create branch/import).
 	Docs []Doc `json:"docs,omitempty"`
 	// Docs2 are the Book documents of an import.
@@ -302,12 +305,18 @@ func genOp(t *rapid.T, kind string, depth int) Op {
 		if rapid.IntRange(0, 3).Draw(t, "save") == 0 {
 			op.Route = "save"
 		}
+		if op.Route == "gql" && rapid.IntRange(0, 2).Draw(t, "idlist") == 0 {
+			op.More = rapid.SliceOfN(rapid.IntRange(0, 7), 1, 2).Draw(t, "more")
+		}
 	case "updateFilter":
 		op.Filter = genFilter(t, op.Col)
 		p := genDoc(t, op.Col, true)
 		op.Patch = &p
 	case "deleteID":
 		op.Doc = rapid.IntRange(0, 7).Draw(t, "doc")
+		if op.Route == "gql" && rapid.IntRange(0, 2).Draw(t, "idlist") == 0 {
+			op.More = rapid.SliceOfN(rapid.IntRange(0, 7), 1, 2).Draw(t, "more")
+		}
 	case "deleteFilter":
 		op.Filter = genFilter(t, op.Col)
 	case "upsert":
@@ -434,6 +443,9 @@ func (o Op) label() string {
 	switch o.Kind {
 	case "createIndex", "dropIndex", "addSchema", "patchSchema", "setActive", "import", "merge", "upsert", "txn":
 		return o.Kind
+	}
+	if len(o.More) > 0 {
+		return o.Kind + "-" + o.Route + "-idlist"
 	}
 	return o.Kind + "-" + o.Route
 }
